@@ -143,9 +143,9 @@ INFO = {
         "rulefn": _c15_rule,
         "trusted": ["Vec<Vec<BigRational>> identified with List (List Rat)",
                     "orders are built with Order::from_basis from the basis given in the op line (the field is private); orders produced by other constructors are passed as their stored basis"],
-        "gaps": ["canonical form (two bases of one module give equal orders; stored basis spans the input module and is lcm-denominator * HNF), union = HNF-span of the stacked generators, constructors: certified on every explored case by Spec.Field (mutual containment by adjugate inverse, isHNF, span by proved hnfNew + back-substitution, determinant of the trace form for discriminants); theorems outstanding for these clauses"],
+        "gaps": ["the Polynomial.discr form of the power-basis discriminant is conditional on the exactness flag of C05"],
         "assumptions": ["square non-singular rational bases of dimension n >= 1; index / chains: the second module is contained in the first; discriminants: dimension = degree of f, f canonical of degree >= 1; disc(Z[theta]) = disc(f): f monic of degree >= 2 (Algebraic::new of a linear f is not reduced and singly_gen asserts)"],
-        "level_text": "Theorems about the Lean model of order.rs for all n x n rational bases: index(A,B) = i exactly when det B = i det A, the explicit panic exactly when the quotient is not an integer; for B = C*A with an integer matrix C the index is det C (never a panic); (A:C) = (A:B)(B:C); disc(B) = (A:B)^2 disc(A), computed without a panic whenever disc(A) and the index exist; a unimodular rebasing has index +-1. Canonical form, union and the constructors are certified per explored case by independent oracles; the model is compared textually with the implementation.",
+        "level_text": "Theorems for all non-singular n x n rational bases about the Lean model of order.rs: from_basis never panics and stores U*A with U integral unimodular (same Z-module); two bases of one module give identical stored orders; stored orders are fixed points; index(A,B) = det B / det A, the change-of-basis determinant, multiplicative, disc(B) = (A:B)^2 disc(A) and integral; union never panics, its module is exactly the sum of the two modules (smallest module containing both), it is commutative, idempotent, absorbs a sub-module, and contains each argument with integer index; for monic f the power-basis order is the identity matrix and its discriminant is disc(f) (singly_gen for degree >= 2; a degree-1 min_poly always trips an assertion, proved). Model tied to the code by differential testing; outputs also decided by independent oracles.",
         "level_note": "Trusted: Lean kernel + 3 standard axioms; Mathlib Matrix/det (through C18's determinant theorem); BigInt/BigRational identified with Int/Rat; correspondence generator coverage. Partial: canonical-form and union clauses certified per explored case, not proved.",
     },
     "C06": {
@@ -185,10 +185,9 @@ INFO = {
         "rule": "all integer polynomials with <= 5 coefficients in a small range; products of 1..4 factors irreducible by construction (Eisenstein, irreducible modulo a prime, cyclotomic, Swinnerton-Dyer type x^4+1, x^4-10x^2+1, degree 8 and 16) with multiplicities up to 12 (>= 7 included), contents, negative and non-monic leading coefficients, large coefficients, x^n - 1, zero and constants, 25 and 26 linear factors (recombination limit); the random history of factorize_mod_p inside is captured and replayed into the model; CLI (to_find = factorization, polynomials) as a process. Non-trivial: degree >= 2.",
         "rulefn": _c07_rule,
         "trusted": ["hooked RNG + Lean draw decoder", "irreducibility certificates of the oracle: degree 1; irreducible modulo a prime (Rabin test / brute force); incompatible factor-degree sets modulo several primes; brute-force divisor search for small cases; otherwise the construction-time expectation supplied by the harness (191 of 5093 quick cases)"],
-        "gaps": ["irreducibility of the returned factors and completeness of the product (Mignotte bound + Hensel uniqueness + Cantor-Zassenhaus) are not proved: certified on every explored case by the oracle (exact product, distinctness, true multiplicities via proved-exact division, irreducibility certificates)",
-                 "termination of the prime search and of the modular factoriser is not proved"],
+        "gaps": ["irreducibility over Q of the returned factors (Mignotte-type bound, Hensel uniqueness, exhaustive recombination) is not proved; the full product identity c * prod f_i^e_i = a is a theorem only under that irreducibility plus the gcd exactness flag of C10 (the multiplicity loop silently drops a final cofactor, which is 1 exactly when the factors are irreducible): both are certified on every explored case by the oracle (exact product, irreducibility certificates, true multiplicities)", "termination of the prime search and of the modular factoriser is not proved"],
         "assumptions": ["squarefree part of degree <= 25 modular factors (the implementation asserts lifted.len() <= 25; beyond that the oracle skips)"],
-        "level_text": "Theorems for all inputs about the building blocks the routine uses (signed content / primitive part; exactness of every trial division; the zero and constant cases of the model). The property's conclusion (irreducible factorisation with true multiplicities) is certified per explored case by an independent oracle; the model of the whole routine (bound, prime search, modular factorisation with the captured random history, Hensel lifting, subset recombination in the same order) is compared textually with the implementation.",
+        "level_text": "Theorems for every non-zero canonical a and every stream of draws about the Lean model of poly_z/mod.rs, for runs that return (c, fs): unconditionally — c != 0 has the sign of lc(a) and |c| = content(a); every returned f is canonical, non-constant, primitive and divides a; c * r * prod f^e = a for a cofactor r which no returned f divides (so no exponent is too small relative to what is left); under the C10 exactness flag — positive leading coefficients, e >= 1, the f pairwise coprime and distinct with squarefree product, and every e is the true multiplicity of f in a; under the flag and irreducibility of the returned factors — c * prod f^e = a exactly. Zero and constants. Model tied to the code by replaying the captured random history (whole routine, and get_factors_of_squarefree through a wrapper); every output decided by an independent oracle.",
         "level_note": "Trusted: Lean kernel + 3 standard axioms; RNG hook/decoder; correspondence coverage. Partial: irreducibility and completeness are certified per explored case, not proved.",
     },
     "C20": {
@@ -236,9 +235,9 @@ INFO = {
         "rule": "factorize_mod_p on every polynomial up to a degree bound over F_2, F_3, F_5, F_7, random degree <= 16 over primes up to 2^61 and beyond 2^64 (pusize in {0, 7, p mod 2^64} on the same captured history), p-th powers, products of equal-degree irreducibles, leading coefficient divisible by p; primitives of prim.rs. Non-trivial: polynomial of degree >= 2.",
         "rulefn": _pm_rule,
         "trusted": _PM_TRUST,
-        "gaps": ["monic, range, distinctness, product identity and irreducibility (Rabin test cross-checked by brute-force division) are certified on every explored case; pusize irrelevance for p >= 2^64 is checked on every such case with three values on the same history; termination of the random splitting is probabilistic"],
+        "gaps": ["the theorems are about runs that return a factor list, for every stream of draws: termination of the random splitting is probabilistic, and the unreachability of the internal panics on legal input is not a theorem (every explored run returned)"],
         "assumptions": ["p prime, f mod p non-zero; for p < 2^64 callers pass pusize = p"],
-        "level_text": "Theorems: modpow is modular exponentiation and modinv a modular inverse for prime p (the two arithmetic facts every stage relies on). The property's conclusion is certified per explored case by an independent oracle; the model (squarefree / distinct-degree / Cantor-Zassenhaus with the captured random history) is compared textually with the implementation.",
+        "level_text": "Theorems for every prime p, every f in Z[x], every value of the machine-word copy allowed by the property (pusize = p when p < 2^64; arbitrary otherwise) and EVERY stream of random draws, about the Lean model of factorize_mod_p.rs and prim.rs: if factorize_mod_p returns fs then every g is monic, canonical, with coefficients in [0,p), of degree >= 1, irreducible over ZMod p (Mathlib Irreducible; distinct-degree stage via the finite-field lemma natDegree_dvd_iff_dvd_X_pow_card_pow_sub_X), the g pairwise distinct, every e >= 1, and lc(f mod p) * prod g^e = f mod p; constant input gives the empty list; for p >= 2^64 the result is the same for every pusize; stage theorems for squarefree decomposition (with p-th roots), distinct-degree and equal-degree splitting. Model tied to the code by replaying the captured random history of every run (whole routine and each private stage through feature-guarded wrappers); outputs also decided by an independent oracle (Rabin test cross-checked by brute force).",
         "level_note": "Trusted: Lean kernel + 3 standard axioms; RNG hook/decoder; correspondence coverage. Partial: see gaps.",
     },
     "C01": {
